@@ -42,12 +42,13 @@ PROP = {
              "scalars, offsets, strided parents, sizes 0..4 and the range/operator forms; distinct = different program text; "
              "non-trivial = a BLAS routine was reached and the output view has >= 2 elements (or a scalar result was produced)"),
     "level_text": ("Theorems over the dispatch chains REGENERATED from gemm.hpp/gemv.hpp/herk.hpp/syrk.hpp/trsm.hpp and the level-1 front ends, for all sizes (incl. 0, 1), all "
-                   "strides satisfying the view invariants, all scalars, any commutative ring with involution: every correct branch issues a legal call whose reference-BLAS post-state is the "
-                   "mathematical result on the logical contents and changes only the output view; each wrong branch has a machine-checked counterexample (finding_* theorems) and an open finding. "
-                   "The model is tied to /repo by the translator and by a differential run of ~80k cases per build flavour with link-time interposed BLAS."),
-    "level_note": ("Trusted: Lean kernel; the translator; the reference BLAS semantics (validated against OpenBLAS); hand-written front ends. Proved per branch; the branches that are wrong are "
-                   "listed as open findings (findings/C13.json) with Lean negation witnesses, the `_partial` theorems cover exactly the remaining branches. trsm and the rank-k updates: "
-                   "see docs/C13.md for what is proved vs validated."),
+                   "strides satisfying the view invariants, all scalars, any commutative ring with involution: EVERY leaf of gemm_n (4 overloads), gemv_n, syrk, herk (non-conjugated C) and dot issues a legal "
+                   "call whose reference-BLAS post-state is the mathematical result on the logical contents and changes only the output view (one `_branch_k_ok` lemma per generated leaf, assembled by the "
+                   "generated case-analysis principle); every xTRSM call is legal. This holds for the source WITH the 19 repairs fixes/C13-*.patch; a leaf that is wrong again makes its lemma fail to compile. "
+                   "The model is tied to /repo by the translator and by a differential run of ~190k cases per build flavour with link-time interposed BLAS."),
+    "level_note": ("Trusted: Lean kernel; the translator; the reference BLAS semantics (validated against OpenBLAS); hand-written front ends. The 148 failing classes found in the unrepaired adaptor are "
+                   "recorded as fixed findings (findings/C13.json, each with the patch that closes it); any failing class of a run is now a violation. trsm: legality proved, the solution itself validated by the "
+                   "differential run only; over-rejection (throw / assert on layouts BLAS could express by another call) is permitted by C13 and listed in docs/C13.md."),
 }
 
 
